@@ -214,6 +214,51 @@ example : Dom exEor = true := by decide +kernel
 example : Dom exKeepalive = true := by decide +kernel
 example : Dom exRefresh = true := by decide +kernel
 
+/-- IPv4 multicast with its ordinary IPv4 next hop (written as is inside MP_REACH_NLRI) -/
+def exMulticastV4 : Input :=
+  ⟨[.mp ⟨1, 2⟩, .as4 65001], [.mp ⟨1, 2⟩, .as4 65002],
+   .reach ⟨1, 2⟩ (some (.v4 [192, 0, 2, 1])) [origin, aspath]
+     [⟨.ip false [224, 0, 1, 0] 24, 0⟩, ⟨.ip false [232, 1, 0, 0] 16, 0⟩]⟩
+/-- a legacy withdrawal of 1000 /32 prefixes: 5 bytes each, two frames on a 4096-byte session -/
+def exSplitUnreach : Input :=
+  ⟨caps4 65001, caps4 65002,
+   .unreach Fam.ipv4 ((List.range 1000).map (fun k => ⟨.ip false [10, 0, k / 256, k % 256] 32, 0⟩))⟩
+/-- an IPv6 announcement of 400 /128 prefixes with path ids (21 bytes each): three frames -/
+def exSplitReach : Input :=
+  ⟨caps4 65001, caps4 65002,
+   .reach Fam.ipv6 (some (.v6 [32, 1, 13, 184, 0, 0, 0, 0, 0, 0, 0, 0, 0, 0, 0, 1])) [origin, aspath, comm]
+     ((List.range 400).map (fun k => ⟨.ip true [32, 1, 13, 184, 0, 1, 0, 0, 0, 0, 0, 0, 0, 0, k / 256, k % 256] 128, 1 + k % 3⟩))⟩
+/-- the same announcement towards a peer WITHOUT 4-octet AS support (outside `Dom`: kernel-evaluated instead):
+    AS_PATH with a wide AS, AGGREGATOR with a wide AS, three frames -/
+def ex2ByteSplit : Input :=
+  ⟨caps4 65001, [.mp Fam.ipv4, .mp Fam.ipv6, .ap [(Fam.ipv6, 3)]],
+   .reach Fam.ipv6 (some (.v6 [32, 1, 13, 184, 0, 0, 0, 0, 0, 0, 0, 0, 0, 0, 0, 1]))
+     [origin, aspath, ⟨7, 192, .bin [0, 1, 17, 112, 192, 0, 2, 1]⟩, comm]
+     ((List.range 400).map (fun k => ⟨.ip true [32, 1, 13, 184, 0, 1, 0, 0, 0, 0, 0, 0, 0, 0, k / 256, k % 256] 128, 1 + k % 3⟩))⟩
+
+example : Dom exMulticastV4 = true := by decide +kernel
+
+/-- number of frames of a run -/
+def framesOf : Obs → Nat
+  | .obs n _ _ _ => n
+  | _ => 0
+
+set_option maxRecDepth 1000000 in
+/-- `Dom` contains inputs that are split over several frames (the master theorem is not only about one-frame runs) -/
+theorem dom_examples_multiframe :
+    Dom exSplitUnreach = true ∧ framesOf (run .release exSplitUnreach) = 2 ∧
+    Dom exSplitReach = true ∧ framesOf (run .debug exSplitReach) = 3 ∧
+    check exSplitReach (run .debug exSplitReach) = .ok := by
+  decide +kernel
+
+set_option maxRecDepth 1000000 in
+/-- whole announcements towards a 2-octet-AS peer are outside `Dom` (only `as4_roundtrip` is proved about them);
+    this one (wide AS in AS_PATH and AGGREGATOR, three frames) is accepted by the checker in both profiles -/
+theorem two_octet_peer_example :
+    buildable ex2ByteSplit = true ∧ Dom ex2ByteSplit = false ∧ framesOf (run .debug ex2ByteSplit) = 3 ∧
+    check ex2ByteSplit (run .debug ex2ByteSplit) = .ok ∧ check ex2ByteSplit (run .release ex2ByteSplit) = .ok := by
+  decide +kernel
+
 /-- the side condition of `roundtrip_open` holds for the capability set of `exOpen` -/
 example : (([.mp Fam.ipv4, .rr, .as4 4200000001, .em, .ap [(Fam.ipv4, 3)], .gr 8 120 [(Fam.ipv4, 128)]] : List Cap).flatMap capBytes).length + 2 < 256 := by
   decide +kernel
